@@ -37,7 +37,7 @@ BUDGET = {'quick': 45, 'thorough': 600}
 QUOTA = {'quick': 45, 'thorough': 900}
 REQUIRED = {'quick': {'evaluations': 8000, 'path_queries_compared': 6000, 'bare_id_queries': 800, 'subset_selector_queries': 500,
                       'attribute_step_queries': 500, 'replication_envelope_results': 800, 'invariance_checks': 300,
-                      'corpus_messages': 8, 'sliced_queries': 3000},
+                      'corpus_messages': 8, 'sliced_queries': 3000, 'malformed_queries_interleaved': 500},
             'thorough': {'evaluations': 150000, 'path_queries_compared': 120000, 'bare_id_queries': 15000,
                          'subset_selector_queries': 10000, 'attribute_step_queries': 10000, 'replication_envelope_results': 15000,
                          'invariance_checks': 5000, 'corpus_messages': 100, 'sliced_queries': 60000}}
@@ -134,8 +134,17 @@ def query_message(ctx, q, m, spec, origin, npaths):
     if len(allp) > npaths:
         allp = rng.sample(allp, npaths)
     used = []
+    MALFORMED = ['/001001[1:x]', '/001001[0:', '@[1', '/012001[1:2:3:4]', '@[2]', '/[', '001001[::', '/001001[7']
     for p in allp:
         for trial in range(3 if ctx.quick else 5):
+            if rng.random() < 0.15:
+                # the querent (and its parser) is long-lived: a rejected expression must leave no trace
+                bad = rng.choice(MALFORMED)
+                try:
+                    q.query(m, bad)
+                    ctx.count('malformed_query_accepted')
+                except Exception:
+                    ctx.count('malformed_queries_interleaved')
             comps = [(s, i, rng.choice(SL) if trial else None) for s, i in p]
             expr = expr_of(comps)
             sliced = any(c[2] is not None for c in comps)
